@@ -65,6 +65,12 @@ def one_run(dev, td, cfg, ref):
                 f["marker"] = np.arange(5)
         pre[name] = sha(p)
     out_path = os.path.join(work, cfg.get("name", "out.h5")) if cfg["explicit"] else None
+    cwd0 = os.getcwd()
+    if cfg.get("chdir_during"):
+        # environment form: the output is given as a RELATIVE name (the process sits in the job directory when the run starts) and
+        # the working directory changes while the run is in progress (a callback / another thread of the application)
+        os.chdir(work)
+        out_path = cfg.get("name", "out.h5")
     N, k = cfg["N"], cfg["k"]
     skipN = 3 if cfg["stage"] == "thermal" else 0
     opts = runs.make_options(None, solve_time=N * DT, skip_time=skipN * DT, dt_init=DT, dt_max=DT, adaptive=False,
@@ -82,6 +88,8 @@ def one_run(dev, td, cfg, ref):
     armed = {"on": not cfg.get("solved_before")}
 
     def upd(state, running_state, dt, **kw):
+        if cfg.get("chdir_during") and state["step"] == 1:
+            os.chdir(tmproot if os.path.isdir(tmproot) else td)
         if armed["on"] and cfg["where"] == "update" and not calls.get("fired") and state["step"] == cfg["p"]:
             in_thermal = skipN > 0 and not calls.get("stage_main")
             if (cfg["stage"] == "thermal") == in_thermal:
@@ -132,6 +140,7 @@ def one_run(dev, td, cfg, ref):
         runner_mod.DataHandler.save_time_step = orig_save
         runner_mod._get = orig_get
         tempfile.tempdir = old_tmp
+        os.chdir(cwd0)
     rec["handles_left"] = open_handles() - h0
     rec["listing"] = sorted(os.listdir(work))
     rec["tmp_left"] = sorted(os.listdir(tmproot))
@@ -377,6 +386,11 @@ def run(rep: common.Report, tier: str, seed: int, replay=None) -> int:
         cfgs.append(dict(id=cid, N=N, k=k_, p=p, kind=kind, where="update", stage="main", explicit=True, preexisting=[],
                          solved_before=True))
         cid += 1
+    # relative output name + the working directory changes during the run, stopped by an error / a cancellation / not at all
+    for kind, p in (("err", 3), ("kbd", 4), ("kbd", 2), ("err", 10 ** 6)):
+        cfgs.append(dict(id=cid, N=N, k=3, p=p, kind=kind, where="update", stage="main", explicit=True, preexisting=[],
+                         chdir_during=True))
+        cid += 1
     with tempfile.TemporaryDirectory(prefix="pyt_c15_") as td:
         # fault-free reference: every step saved
         ref_opts = runs.make_options(None, solve_time=N * DT, dt_init=DT, dt_max=DT, adaptive=False, save_every=1,
@@ -391,7 +405,7 @@ def run(rep: common.Report, tier: str, seed: int, replay=None) -> int:
             rep.nontrivial((cfg["k"], cfg["kind"], cfg["where"], cfg["stage"], cfg["explicit"], tuple(cfg["preexisting"]),
                             cfg["p"] % cfg["k"] == 0))
             if cfg["where"] == "update" and cfg["stage"] == "main" and cfg["explicit"] and rec["frames"] is not None \
-                    and not cfg.get("solved_before"):
+                    and not cfg.get("solved_before") and not cfg.get("chdir_during"):
                 model_cases.append((cfg, [f["step"] for f in rec["frames"]], rec.get("out_name")))
     for c in cfgs[:3] + cfgs[-3:]:
         rep.sample({k_: c[k_] for k_ in ("N", "k", "p", "kind", "where", "stage", "explicit", "preexisting")})
